@@ -91,6 +91,7 @@ var targets = []target{
 		Locals: []string{"supply_OutgoingSupply"}, Guards: true},
 	{Group: "Htlc", Mod: "htlc", Pkg: "keeper", Func: "Keeper.DecrementOutgoingAssetSupply", Lean: "DecOutgoing",
 		Locals: []string{"supply_OutgoingSupply"}, Guards: true},
+	{Group: "Htlc", Mod: "htlc", Pkg: "keeper", Func: "Keeper.createHTLT", Lean: "createHTLT", Guards: true},
 	{Group: "Htlc", Mod: "htlc", Pkg: "keeper", Func: "Keeper.UpdateTimeBasedSupplyLimits", Lean: "UpdateWindow",
 		Locals: []string{"newTimeElapsed", "supply_TimeElapsed"}, Guards: true, Conds: true},
 	{Group: "Service", Mod: "service", Pkg: "keeper", Func: "Keeper.AddEarnedFee", Lean: "AddEarnedFee",
@@ -296,6 +297,11 @@ func (t *tr) fieldPath(e ast.Expr) (string, bool) {
 				return p + "_" + id.Name, true
 			}
 		}
+		if lit, ok := x.Index.(*ast.BasicLit); ok && lit.Kind == token.INT {
+			if p, ok := t.fieldPath(x.X); ok {
+				return p + "_" + lit.Value, true
+			}
+		}
 	}
 	return "", false
 }
@@ -353,6 +359,11 @@ func (t *tr) expr(e ast.Expr, out *[]string) (string, kind) {
 			}
 		}
 		t.fail(x, "selector %s", types.ExprString(x))
+	case *ast.IndexExpr:
+		if p, ok := t.fieldPath(x); ok {
+			return t.addParam(p, k, x), k
+		}
+		t.fail(x, "index expression %s", types.ExprString(x))
 	case *ast.UnaryExpr:
 		a, ak := t.expr(x.X, out)
 		switch x.Op {
@@ -405,31 +416,8 @@ func (t *tr) expr(e ast.Expr, out *[]string) (string, kind) {
 		}
 		t.fail(x, "binary %s on machine values (fixed-width arithmetic is not translated)", x.Op)
 	case *ast.CallExpr:
-		if t.opaque && k != kOther && k != kErr {
-			// try the call; if it is outside the library surface it is a read of the environment
-			var res string
-			var rk kind
-			ok := func() (ok bool) {
-				defer func() {
-					if r := recover(); r != nil {
-						if _, is := r.(unsupported); is {
-							ok = false
-							return
-						}
-						panic(r)
-					}
-				}()
-				var tmp []string
-				saveTmp, saveParams := t.tmp, len(t.params)
-				res, rk = t.call(x, &tmp)
-				_ = saveTmp
-				_ = saveParams
-				*out = append(*out, tmp...)
-				return true
-			}()
-			if ok {
-				return res, rk
-			}
+		if t.opaque && k != kOther && k != kErr && !t.knownCall(x) {
+			// outside the library surface: a read of the environment (store, bank, coins, addresses)
 			name := "read_" + sanitize(types.ExprString(x))
 			return t.addParam(name, k, x), k
 		}
@@ -437,6 +425,31 @@ func (t *tr) expr(e ast.Expr, out *[]string) (string, kind) {
 	}
 	t.fail(e, "expression %T", e)
 	return "", kOther
+}
+
+// knownCall: the callee is a library method / function of the tables, a conversion or a translated function
+func (t *tr) knownCall(c *ast.CallExpr) bool {
+	info := t.pkg.TypesInfo
+	if tv, ok := info.Types[c.Fun]; ok && tv.IsType() {
+		return true
+	}
+	switch f := c.Fun.(type) {
+	case *ast.SelectorExpr:
+		if sel := info.Selections[f]; sel != nil && sel.Kind() == types.MethodVal {
+			_, ok := methods[recvKey(kindOf(info.TypeOf(f.X)))+"."+f.Sel.Name]
+			return ok
+		}
+		if fn, ok := info.ObjectOf(f.Sel).(*types.Func); ok {
+			_, ok := funcs[fn.FullName()]
+			return ok
+		}
+	case *ast.Ident:
+		if fn, ok := info.ObjectOf(f).(*types.Func); ok {
+			_, ok := t.knownGo[fn.FullName()]
+			return ok
+		}
+	}
+	return false
 }
 
 func sanitize(s string) string {
@@ -487,7 +500,12 @@ func (t *tr) call(c *ast.CallExpr, out *[]string) (string, kind) {
 		case ak == to:
 			return a, to
 		case ak == kNat && to == kI64:
+			if b, ok := info.TypeOf(c.Args[0]).Underlying().(*types.Basic); ok && (b.Kind() == types.Uint64 || b.Kind() == types.Uint || b.Kind() == types.Uintptr) {
+				return "(I64_wrap (" + a + " : Int))", kI64 // int64(uint64) wraps from 2^63
+			}
 			return "(" + a + " : Int)", kI64
+		case ak == kI64 && to == kNat:
+			return "(U64_ofI64 " + a + ")", kNat // uint64(int64) wraps below 0
 		}
 		t.fail(c, "conversion %s", types.ExprString(c))
 	}
@@ -1006,7 +1024,7 @@ func writeGroup(group, outLean string, load func(string) []*packages.Package) {
 			untranslated = append(untranslated, tg.Lean+": function "+tg.Func+" not found in "+tg.Mod+"/"+tg.Pkg)
 			continue
 		}
-		if len(tg.Locals) > 0 {
+		if len(tg.Locals) > 0 || tg.Guards || tg.Conds {
 			ds, es := translateLocals(pkg, fd, tg)
 			defs = append(defs, ds...)
 			untranslated = append(untranslated, es...)
